@@ -419,6 +419,22 @@ def run(repo, rep, tier):
                     ch = chain(e.func)
                     if ch and ch[0] == sn and len(ch) == 2 and isinstance(repo.lookup(c, ch[1]), FuncInfo):
                         return True
+                    # map(self.bin, xs): every element is the result of the index method
+                    if isinstance(e.func, ast.Name) and e.func.id == "map" and len(e.args) >= 2 and not e.keywords:
+                        ch = chain(e.args[0])
+                        if ch and ch[0] == sn and len(ch) == 2 and isinstance(repo.lookup(c, ch[1]), FuncInfo):
+                            return True
+                if isinstance(e, (ast.ListComp, ast.GeneratorExp, ast.SetComp)):
+                    # [self.bin(x) for x in xs]: the elements are what counts; the loop variable of a query-derived iterable is query-derived
+                    extra = set()
+                    for gen in e.generators:
+                        if not routed(gen.iter):
+                            extra |= {x.id for x in ast.walk(gen.target) if isinstance(x, ast.Name)} - tainted
+                    tainted.update(extra)
+                    try:
+                        return routed(e.elt)
+                    finally:
+                        tainted.difference_update(extra)
                 if isinstance(e, ast.Name):
                     return e.id not in tainted
                 if isinstance(e, ast.IfExp):
@@ -570,7 +586,7 @@ def run(repo, rep, tier):
     r4 = rep.rule("R13.4", "2-D grids/projections sum entries of inner-most bins only (never a slice total or a flow)", floor=10)
     two_d = []
     for mname in ("histogrammar.plot.matplotlib",):
-        mod = repo.modules.get(mname)
+        mod = inlined_repo.modules.get(mname)              # helpers of the grid functions are followed (inlined view)
         if mod is None:
             raise AnalysisError(f"{mname} not found")
         for k in mod.classes.values():
@@ -578,7 +594,7 @@ def run(repo, rep, tier):
                 for fn in ("xy_ranges_grid", "project_on_x", "project_on_y"):
                     if fn in k.methods:
                         two_d.append((k.methods[fn], k.methods[fn].params[0]))
-    hn = repo.modules.get("histogrammar.plot.hist_numpy")
+    hn = inlined_repo.modules.get("histogrammar.plot.hist_numpy")
     if hn is None:
         raise AnalysisError("histogrammar.plot.hist_numpy not found")
     for fn in ("set_2dgrid", "set2Dsparse"):
